@@ -23,6 +23,10 @@ func canonNativeCell(s string) string {
 	if c, ok := ratOf(s); ok {
 		return c
 	}
+	// Value.String() prints a Time as bare RFC3339 text (strings are quoted, so this cannot be a String value)
+	if c, ok := canonTime(s); ok {
+		return c
+	}
 	return "?:" + s
 }
 
